@@ -146,6 +146,7 @@ public:
     Heap<ElimLt>        elim_heap;
     int                 bwdsub_assigns;
     vec<uint32_t>       elimclauses;
+    vec<char>           inElimClauses;           // Variables occurring in 'elimclauses' besides the eliminated ones
     vec<char>           touched;
     int                 n_touched;
 
@@ -173,6 +174,7 @@ public:
     bool          backwardSubsumptionCheck (bool verbose = false);
     bool          eliminateVar             (Var v);
     void          extendModel              ();
+    bool          isVarNeededForModelExtension(Var v) const override { return v < inElimClauses.size() and inElimClauses[v]; }
 
     void          removeClause             (CRef cr);
     bool          strengthenClause         (CRef cr, Lit l);
